@@ -74,6 +74,7 @@ type Obligation struct {
 	fv      *FuncVerifier
 	Cover   bool // cover obligation: expected sat
 	Anc     map[int]bool
+	GhostRet map[string]string // ghost result witnesses (terms) at this return site
 	queryFile string
 }
 
